@@ -537,25 +537,17 @@ def check_real(case: dict[str, Any]) -> list[tuple[str, str]]:
                 if not belongs(req, rep):
                     out.append((f"C19/real/{scheme}/foreign-reply", f"request of {n} bytes starting {req[:4].hex()}: reply {rep.hex()[:40]}"))
                     return
-            # a request the ECU does not answer (TesterPresent with the suppress bit) produces no line at all - in particular not an
-            # empty one, which the client could not tell from end-of-stream; the next reply read is the one to the next request
-            await tr.write(b"\x3e\x80", timeout=5)
-            await tr.write(b"\x3e\x00", timeout=5)
+            # a request the ECU does not answer (a change to the default session with the suppress bit: offered by every model)
+            # produces no line at all - in particular not an empty one, which the client could not tell from end-of-stream; the
+            # next message read is the reply to the next request
+            await tr.write(b"\x10\x81", timeout=5)
+            await tr.write(b"\x10\x01", timeout=5)
             try:
                 rep = await tr.read(timeout=5)
             except Exception as e:  # noqa: BLE001
                 rep = f"{type(e).__name__}: {e}".encode()
-            if len(rep) == 3 and rep[:2] == b"\x7f\x3e":
-                # this model does not offer TesterPresent here: negative replies are never suppressed, so there are two of them
-                try:
-                    rep = await tr.read(timeout=5)
-                except Exception as e:  # noqa: BLE001
-                    rep = f"{type(e).__name__}: {e}".encode()
-                if not (len(rep) == 3 and rep[:2] == b"\x7f\x3e"):
-                    out.append((f"C19/real/{scheme}/line-for-an-unanswered-request", f"3e80 then 3e00, both refused: second message read is {rep!r}"))
-                    return
-            elif rep != b"\x7e\x00":
-                out.append((f"C19/real/{scheme}/line-for-an-unanswered-request", f"3e80 then 3e00: first message read is {rep!r}"))
+            if rep[:2] != b"\x50\x01":
+                out.append((f"C19/real/{scheme}/line-for-an-unanswered-request", f"10 81 then 10 01: first message read is {rep!r}"))
                 return
             # somebody else connects to the virtual ECU and hangs up without a word (a port scan, a health check): this tester's
             # conversation goes on
